@@ -41,6 +41,8 @@ type Obligation struct {
 	Canary bool // vacuity canary: must NOT be provable
 	vc     *VC
 	Info   string
+	Splits []string // case-split literals (append in-place flags on the path): tried when the whole goal is not decided
+	Extra  string   // extra assertions for a split case
 }
 
 type edge struct {
@@ -100,6 +102,8 @@ type VC struct {
 	funcRegs            []region
 	funcRegsAll         bool
 	funcRegsDone        bool
+	labels              map[string]*stateLabel
+	splitLits           []string
 }
 
 type debugDef struct {
@@ -168,6 +172,13 @@ func (vc *VC) oblige(kind, label string, pc, goal string, tags []string, pos tok
 		tags = vc.defTags
 	}
 	o := &Obligation{Func: vc.name, Name: name, Kind: kind, Label: label, Tags: tags, Prefix: len(vc.asserts), PC: pc, Goal: goal, vc: vc, Info: info}
+	if n := len(vc.splitLits); n > 0 {
+		lo := n - 2
+		if lo < 0 {
+			lo = 0
+		}
+		o.Splits = append([]string{}, vc.splitLits[lo:]...)
+	}
 	if pos.IsValid() {
 		o.Pos = vc.w.prog.Fset.Position(pos)
 	}
@@ -239,6 +250,7 @@ func (o *Obligation) Script(produceModels bool) string {
 		b.WriteString(not(o.Goal))
 		b.WriteString(")\n")
 	}
+	b.WriteString(o.Extra)
 	b.WriteString("(check-sat)\n")
 	return b.String()
 }
@@ -264,7 +276,7 @@ func (w *World) NewVC(fn *ssa.Function, fc *FuncContract) *VC {
 		edges: map[[2]int]*edge{}, blockPC: map[int]string{}, blockSt: map[int]*State{},
 		loopHead: map[int]*loopInfo{}, debugVars: map[string][]debugDef{}, ordinals: map[string]int{},
 		globals: map[*ssa.Global]int{}, callCount: map[string]int{}, params: map[string]SpecVal{}, assumed: map[string]bool{},
-		mapRanges: map[ssa.Value]*mapRange{}, usedLemmas: map[string]bool{}, usedFns: map[string]bool{}}
+		mapRanges: map[ssa.Value]*mapRange{}, usedLemmas: map[string]bool{}, usedFns: map[string]bool{}, labels: map[string]*stateLabel{}}
 	if fn.Pkg != nil {
 		vc.pkg = fn.Pkg.Pkg
 	} else if recv := fn.Signature.Recv(); recv != nil {
@@ -299,7 +311,7 @@ func (vc *VC) ghostGet(st *State, name string) string {
 	return n
 }
 
-// loadVal reads a value of Go type t at location loc.
+// loadVal reads a value of Go type t at location loc (t a struct, or a leaf stored as an element/cell).
 func (vc *VC) loadVal(st *State, loc string, t types.Type) string {
 	if s, ok := t.Underlying().(*types.Struct); ok {
 		if s.NumFields() == 0 {
@@ -307,51 +319,132 @@ func (vc *VC) loadVal(st *State, loc string, t types.Type) string {
 		}
 		args := make([]string, s.NumFields())
 		for i := 0; i < s.NumFields(); i++ {
-			args[i] = vc.loadVal(st, sx("fldloc", loc, fmt.Sprint(i)), s.Field(i).Type())
+			ft := s.Field(i).Type()
+			floc := sx("fldloc", loc, fmt.Sprint(i))
+			if _, isStruct := ft.Underlying().(*types.Struct); isStruct {
+				args[i] = vc.loadVal(st, floc, ft)
+			} else {
+				args[i] = vc.loadLeaf(st, vc.enc.FieldHeap(t, i), floc)
+			}
 		}
 		return sx(vc.enc.structCtor(t), args...)
 	}
 	if _, ok := t.Underlying().(*types.Array); ok {
 		panic(unsupported("load of array value"))
 	}
-	h := vc.enc.HeapFor(t)
-	return sx("select", vc.heapGet(st, h), loc)
+	return vc.loadLeaf(st, vc.enc.HeapFor(t), loc)
+}
+
+func (vc *VC) loadLeaf(st *State, heap, loc string) string {
+	return sx("select", vc.heapGet(st, heap), loc)
+}
+
+func (vc *VC) storeLeaf(st *State, heap, loc, v string) {
+	cur := vc.heapGet(st, heap)
+	n := vc.define(heap, fmt.Sprintf("(Array Loc %s)", vc.enc.heaps[heap]), sx("store", cur, loc, v))
+	st.heap[heap] = n
 }
 
 // storeVal writes v (of Go type t) at loc, updating st in place.
 func (vc *VC) storeVal(st *State, loc string, t types.Type, v string) {
 	if s, ok := t.Underlying().(*types.Struct); ok {
 		for i := 0; i < s.NumFields(); i++ {
-			vc.storeVal(st, sx("fldloc", loc, fmt.Sprint(i)), s.Field(i).Type(), sx(vc.enc.structSel(t, i), v))
+			ft := s.Field(i).Type()
+			floc := sx("fldloc", loc, fmt.Sprint(i))
+			fv := sx(vc.enc.structSel(t, i), v)
+			if _, isStruct := ft.Underlying().(*types.Struct); isStruct {
+				vc.storeVal(st, floc, ft, fv)
+			} else {
+				vc.storeLeaf(st, vc.enc.FieldHeap(t, i), floc, fv)
+			}
 		}
 		return
 	}
 	if _, ok := t.Underlying().(*types.Array); ok {
 		panic(unsupported("store of array value"))
 	}
-	h := vc.enc.HeapFor(t)
-	cur := vc.heapGet(st, h)
-	n := vc.define(h, fmt.Sprintf("(Array Loc %s)", vc.enc.heaps[h]), sx("store", cur, loc, v))
-	st.heap[h] = n
+	vc.storeLeaf(st, vc.enc.HeapFor(t), loc, v)
 }
 
-// leafPaths enumerates (path-expression builder, leaf type) for every leaf in t, relative to an element location.
-type leaf struct {
-	steps []int
-	t     types.Type
+// ptrHeaps: the heap(s) a pointer to a non-struct cell may point into, determined from its SSA
+// definition. alt.k < 0: unconditional; otherwise the alternative applies when the last field step
+// of the location is k.
+type heapAlt struct {
+	heap string
+	k    int
 }
 
-func leavesOf(t types.Type) []leaf {
-	if s, ok := t.Underlying().(*types.Struct); ok {
-		var out []leaf
-		for i := 0; i < s.NumFields(); i++ {
-			for _, l := range leavesOf(s.Field(i).Type()) {
-				out = append(out, leaf{append([]int{i}, l.steps...), l.t})
+func (vc *VC) ptrHeaps(p ssa.Value, elemT types.Type) []heapAlt {
+	switch x := p.(type) {
+	case *ssa.FieldAddr:
+		st := x.X.Type().Underlying().(*types.Pointer).Elem()
+		return []heapAlt{{vc.enc.FieldHeap(st, x.Field), x.Field}}
+	case *ssa.IndexAddr, *ssa.Alloc, *ssa.Global:
+		return []heapAlt{{vc.enc.HeapFor(elemT), -1}}
+	case *ssa.Phi:
+		var out []heapAlt
+		seen := map[string]bool{}
+		for _, e := range x.Edges {
+			if c, ok := e.(*ssa.Const); ok && c.Value == nil {
+				continue
+			}
+			for _, a := range vc.ptrHeaps(e, elemT) {
+				if !seen[a.heap] {
+					seen[a.heap] = true
+					out = append(out, a)
+				}
 			}
 		}
 		return out
 	}
-	return []leaf{{nil, t}}
+	panic(unsupported(fmt.Sprintf("pointer to a %s cell of unknown origin (%T)", elemT, p)))
+}
+
+func (vc *VC) loadThrough(st *State, p ssa.Value, loc string, elemT types.Type) string {
+	if _, ok := elemT.Underlying().(*types.Struct); ok {
+		return vc.loadVal(st, loc, elemT)
+	}
+	alts := vc.ptrHeaps(p, elemT)
+	if len(alts) == 0 {
+		panic(unsupported("load through always-nil pointer"))
+	}
+	t := vc.loadLeaf(st, alts[len(alts)-1].heap, loc)
+	for i := len(alts) - 2; i >= 0; i-- {
+		if alts[i].k < 0 {
+			panic(unsupported("ambiguous pointer-to-cell origin"))
+		}
+		t = ite(eq(sx("mod", sx("l_path", loc), "64"), fmt.Sprint(alts[i].k+1)), vc.loadLeaf(st, alts[i].heap, loc), t)
+	}
+	return t
+}
+
+func (vc *VC) storeThrough(st *State, p ssa.Value, loc string, elemT types.Type, v string) {
+	if _, ok := elemT.Underlying().(*types.Struct); ok {
+		vc.storeVal(st, loc, elemT, v)
+		return
+	}
+	alts := vc.ptrHeaps(p, elemT)
+	if len(alts) == 1 {
+		vc.storeLeaf(st, alts[0].heap, loc, v)
+		return
+	}
+	for i, a := range alts {
+		if a.k < 0 {
+			panic(unsupported("ambiguous pointer-to-cell origin"))
+		}
+		cond := eq(sx("mod", sx("l_path", loc), "64"), fmt.Sprint(a.k+1))
+		if i == len(alts)-1 {
+			// last alternative takes the remaining cases
+			var others []string
+			for _, b := range alts[:i] {
+				others = append(others, eq(sx("mod", sx("l_path", loc), "64"), fmt.Sprint(b.k+1)))
+			}
+			cond = not(or(others...))
+		}
+		cur := vc.heapGet(st, a.heap)
+		n := vc.define(a.heap, fmt.Sprintf("(Array Loc %s)", vc.enc.heaps[a.heap]), ite(cond, sx("store", cur, loc, v), cur))
+		st.heap[a.heap] = n
+	}
 }
 
 func pathLoc(loc string, steps []int) string {
